@@ -48,6 +48,252 @@ def check_successor(ck, fn, what, next_term, ret_term, cname, wname, tier):
     return n
 
 
+def str_parts(t):
+    """a string-valued term as a list of ('lit', text) / ('val', term) pieces (str(x) of an integer term x), or None"""
+    if t.k == "const" and isinstance(t.a[0], str):
+        return [("lit", t.a[0])] if t.a[0] else []
+    if t.k == "call" and t.a[0] == "str" and len(t.a[1]) == 1:
+        return [("val", t.a[1][0])]
+    if t.k == "call" and t.a[0] == "fstring" and t.a[1]:
+        out = []
+        for p_ in t.a[1]:
+            q = str_parts(p_)
+            if q is None:
+                return None
+            out += q
+        return merge_lits(out)
+    if t.k == "call" and t.a[0] == ".join" and len(t.a[1]) == 2 and D.is_const(t.a[1][0], "") and t.a[1][1].k in ("tuple", "list"):
+        out = []
+        for p_ in t.a[1][1].a[0]:
+            q = str_parts(p_)
+            if q is None:
+                return None
+            out += q
+        return merge_lits(out)
+    if t.k == "op" and t.a[0] == "+":
+        x, y = str_parts(t.a[1]), str_parts(t.a[2])
+        if x is None or y is None:
+            return None
+        return merge_lits(x + y)
+    return None
+
+
+def merge_lits(parts):
+    out = []
+    for k, v in parts:
+        if k == "val" and v.k == "const" and isinstance(v.a[0], int) and not isinstance(v.a[0], bool):
+            k, v = "lit", str(v.a[0])       # str() of a constant integer
+        if k == "lit" and out and out[-1][0] == "lit":
+            out[-1] = ("lit", out[-1][1] + v)
+        else:
+            out.append((k, v))
+    return out
+
+
+WRITE_OPS = ("write", "write_text", "writelines", "write_bytes")
+READ_OPS = ("readline", "readlines", "read", "read_text", "read_bytes")
+
+
+def run_file_method(P, w, meth):
+    it = new_interp(P); env = Env()
+    fp = it.new_object(P.cls(f"{SQ}.FileSeqCountProvider").qual, symbolic=True, root="self", path="self")
+    env.heap[(fp.a[0], "_max_bit_width")] = w
+    r = call_method(it, env, fp, meth)
+    return it, env, r
+
+
+def open_mode(op):
+    """mode string of an open(...) / path.open(...) effect (None = not a constant)"""
+    args = list(op["args"])
+    if op["recv"] is None:
+        args = args[1:]             # builtin open(path, mode)
+    m = args[0] if args else op["kw"].get("mode", C("r"))
+    return m.a[0] if m.k == "const" and isinstance(m.a[0], str) else None
+
+
+def opened_by(ops, handle):
+    """the open effect that produced a file handle term"""
+    for o in ops:
+        if o["op"] == "open":
+            t = T("call", "open", o["args"], ty="file") if o["recv"] is None else T("call", ".open", (o["recv"],) + o["args"])
+            if t == handle:
+                return o
+    return None
+
+
+def first_line_read(ops, ret):
+    """'first' if what is parsed is the first line of the file, 'whole' if it is the whole content, None if unrecognised"""
+    reads = [o for o in ops if o["op"] in READ_OPS]
+    if not reads:
+        return None, None
+    r0 = reads[0]
+    if r0["op"] == "readline":
+        return "first", r0
+    if ret is not None:
+        for x in subterms(ret):
+            if x.k == "idx" and D.is_const(x.a[1], 0) and x.a[0].k == "call" and x.a[0].a[0] in (".readlines", ".splitlines"):
+                return "first", r0
+    if r0["op"] in ("read", "read_text", "readlines"):
+        return "whole", r0
+    return None, r0
+
+
+def file_effects(ck, P, w):
+    """The file provider is run over a symbolic provider object and the file-system effects it performs are taken in program
+    order from the interpreter (open / read / seek / write / truncate / close, leaving a with-block), whatever statements or
+    helpers produce them."""
+    nev = 0
+    FP = "FileSeqCountProvider"
+    # ---- create_new: the file is (re)written to hold "0\n"
+    fn = f"{FP}.create_new"
+    try:
+        it, env, r = run_file_method(P, w, "create_new")
+    except Unsupported as e:
+        ck.unknown("K-CONST", fn, "a new file holds the count 0", str(e))
+        it = None
+    if it is not None:
+        writes = [o for o in it.fileops if o["op"] in WRITE_OPS]
+        what = "a new file holds the count 0"
+        if not writes:
+            ck.refuted("K-CONST", fn, what, "nothing is written to the file")
+        else:
+            bad, unk = [], []
+            for o in writes:
+                txt = o["args"][0] if o["args"] else None
+                if txt is not None and txt.k != "const":
+                    pp_ = str_parts(txt)
+                    if pp_ is not None and len(pp_) == 1 and pp_[0][0] == "lit":
+                        txt = C(pp_[0][1])
+                if txt is None or txt.k != "const":
+                    unk.append(f"writes {show(txt)[:60] if txt is not None else '?'}")
+                elif txt.a[0] not in ("0\n", b"0\n"):
+                    bad.append(f"writes {txt.a[0]!r}, reference '0\\n'")
+                if o["op"] == "write":
+                    op = opened_by(it.fileops, o["recv"])
+                    mode = open_mode(op) if op is not None else None
+                    if mode is None:
+                        unk.append("the mode the file is opened with is not a constant")
+                    elif "w" not in mode:
+                        (bad if "a" in mode else unk).append(f"the file is opened with mode {mode!r}: earlier content is kept")
+            if len(writes) > 1:
+                unk.append(f"{len(writes)} writes")
+            if bad:
+                ck.refuted("K-CONST", fn, what, "; ".join(bad))
+            elif unk:
+                ck.unknown("K-CONST", fn, what, "; ".join(unk))
+            else:
+                ck.proved("K-CONST", fn, what, f"{writes[0]['op']}('0\\n') on a truncated file")
+    # ---- get_and_increment: read first line, seek(0), write successor + newline, closed before returning, old count returned
+    fn = f"{FP}.get_and_increment"
+    writer_truncates = False
+    try:
+        it, env, r = run_file_method(P, w, "get_and_increment")
+    except Unsupported as e:
+        ck.unknown("P-MUST", fn, "file effects of get_and_increment analysed", str(e))
+        it = None
+    if it is not None:
+        ops = it.fileops
+        opens = [o for o in ops if o["op"] == "open"]
+        writes = [o for o in ops if o["op"] in WRITE_OPS]
+        reads = [o for o in ops if o["op"] in READ_OPS]
+        what = "the stored count is replaced in place by its successor: read, seek(0), write successor + newline, file closed before the call returns"
+        probs, unk = [], []
+        if len(opens) != 1 or len(writes) != 1 or not reads or writes[0]["op"] != "write":
+            unk.append(f"{len(opens)} opens, {len(reads)} reads, {len(writes)} writes ({', '.join(o['op'] for o in writes)})")
+        else:
+            wr, rd = writes[0], reads[0]
+            mode = open_mode(opens[0])
+            if mode is None:
+                unk.append("the open mode is not a constant")
+            elif "w" in mode:
+                probs.append(f"the file is opened with mode {mode!r}, which empties it before the count is read")
+            elif not ("r" in mode and "+" in mode):
+                probs.append(f"the file is opened with mode {mode!r}; reference 'r+' (read and write, no truncation)")
+            if rd["seq"] > wr["seq"]:
+                probs.append("the count is written before it is read")
+            seeks = [o for o in ops if o["op"] == "seek" and rd["seq"] < o["seq"] < wr["seq"] and o["recv"] == wr["recv"]]
+            if not seeks:
+                probs.append("no seek between reading the count and writing its successor: the successor is written behind the old count, which stays the first line")
+            elif not (seeks[-1]["args"] and D.is_const(seeks[-1]["args"][0], 0) and len(seeks[-1]["args"]) == 1):
+                probs.append(f"seek({', '.join(show(a_)[:20] for a_ in seeks[-1]['args'])}) before the write; reference seek(0)")
+            # what is written
+            parts = str_parts(wr["args"][0]) if wr["args"] else None
+            if parts is None:
+                unk.append(f"written text not recognised: {show(wr['args'][0])[:80] if wr['args'] else '?'}")
+            elif len(parts) != 2 or parts[0][0] != "val" or parts[1] != ("lit", "\n"):
+                probs.append(f"the text written is {[(k_, v_ if k_ == 'lit' else show(v_)[:60]) for k_, v_ in parts]}; reference str(successor) followed by exactly one newline")
+            elif r is None or r.k == "const":
+                probs.append(f"the call returns {show(r)[:40] if r is not None else 'nothing'}, not the count that was read")
+            else:
+                c = sym("c", ty="int")
+                nxt = substitute(parts[0][1], {r: c})
+                if any(x.k == "call" and x.a[0].startswith(".read") for x in subterms(nxt)):
+                    unk.append(f"the successor is not a function of the returned count alone: {show(nxt)[:100]}")
+                else:
+                    nev += check_successor(ck, fn, "the value written back == (returned count + 1) mod 2^width", nxt, None, "c", "w", ck.tier)
+            # truncation
+            for o in ops:
+                if o["op"] != "truncate" or o["recv"] != wr["recv"]:
+                    continue
+                if not o["args"]:
+                    writer_truncates = writer_truncates or o["seq"] > wr["seq"]
+                    continue
+                if o["seq"] > wr["seq"] and wr["args"] and o["args"][0] == length(wr["args"][0]):
+                    writer_truncates = True
+                    continue
+                if D.is_const(o["args"][0], 0) and o["seq"] < wr["seq"]:
+                    continue
+                probs.append(f"truncate({show(o['args'][0])[:40]}) cuts the file to a length other than that of the text just written; the stored count is damaged when the "
+                             "number of digits changes")
+            # closed before returning
+            closed = wr["recv"] in wr["withs"] or any(o["op"] == "close" and o["recv"] == wr["recv"] and o["seq"] > wr["seq"] for o in ops)
+            if not closed:
+                probs.append("the file is neither managed by a with-block nor closed after the write: the new count may not have reached the file when the call returns")
+        if probs:
+            ck.refuted("P-MUST", fn, what, "; ".join(probs[:4]))
+        elif unk:
+            ck.unknown("P-MUST", fn, what, "; ".join(unk))
+        else:
+            ck.proved("P-MUST", fn, what, "effect trace: " + " > ".join(o["op"] for o in ops))
+    # ---- readers agree with the writer about what is stored: the count is the FIRST LINE (the writer overwrites in place)
+    for meth in ("current", "get_and_increment"):
+        fn = f"{FP}.{meth}"
+        what = f"{meth} validates the stored count, i.e. the first line of the file"
+        try:
+            it, env, r = run_file_method(P, w, meth)
+        except Unsupported as e:
+            ck.unknown("P-MUST", fn, what, str(e))
+            continue
+        kind, rd = first_line_read(it.fileops, r)
+        validated = any(callee.endswith("check_count") for _caller, callee in it.calls)
+        if not validated:
+            ck.unknown("P-MUST", fn, "the stored count is validated", "no check_count call")
+        if kind == "first" or (kind == "whole" and writer_truncates):
+            ck.proved("P-MUST", fn, what, f"{rd['op']}()")
+        elif kind == "whole":
+            ck.refuted("P-MUST", fn, what, f"{rd['op']}() parses the whole file although the writer overwrites in place without truncating: "
+                       "after the rollover 127 -> 0 of a 7-bit counter the file holds '0\\n7\\n' and the valid stored count 0 is refused", witness={"file_content": "0\n7\n", "width": 7})
+        else:
+            ck.unknown("P-MUST", fn, what, "unrecognised way of reading the count: " + (rd["op"] if rd else "no read effect"))
+    # ---- a new instance never resets an existing file
+    fn = f"{FP}.__init__"
+    what = "an existing file is never reset by a new instance"
+    it = new_interp(P); env = Env()
+    try:
+        construct(it, env, f"{SQ}.{FP}", dict(max_bit_width=w, file_name=it.symbolic_value("file_name", None)))
+    except Unsupported as e:
+        ck.unknown("K-CONST", fn, what, str(e))
+        it = None
+    if it is not None:
+        bad = []
+        for o in it.fileops:
+            destructive = o["op"] in WRITE_OPS or o["op"] in ("truncate", "unlink") or (o["op"] == "open" and "w" in (open_mode(o) or "r"))
+            if destructive and not any(f_.k == "un" and f_.a[0] == "not" and "exists" in show(f_) for f_ in o["facts"]):
+                bad.append(f"{o['op']} at {o['where']} is not guarded by `not exists()`")
+        ck.verdict("K-CONST", fn, what, bad[:3], f"{sum(1 for o in it.fileops if o['op'] in WRITE_OPS)} writes, all under not exists()")
+    return nev
+
+
 def run(ck):
     P = Program(ck.repo)
     ck.explanation = (
@@ -143,105 +389,8 @@ def run(ck):
         if r is not None and meth == "current":
             ok = r.k == "call" and r.a[0] == "int"
             ck.verdict("W-VAL", "FileSeqCountProvider.current", "returns the validated count read from the file", [] if ok else [show(r)[:60]], show(r)[:50], nontrivial=False)
-    # ---------------------------------------------------------------- write-back order (syntactic must-order)
-    f = P.func(f"{SQ}.FileSeqCountProvider.get_and_increment")
-    probs = []
-    withs = [n for n in f.node.body if isinstance(n, ast.With)]
-    if len(withs) != 1:
-        probs.append(f"{len(withs)} with-blocks")
-    else:
-        wn = withs[0]
-        ctx = ast.unparse(wn.items[0].context_expr)
-        if "open(" not in ctx or "r+" not in ctx:
-            probs.append(f"file opened as `{ctx}` (needs read/write without truncation)")
-        fv = wn.items[0].optional_vars.id if isinstance(wn.items[0].optional_vars, ast.Name) else None
-        import re as _re
-        kinds = []
-        var = None
-        defs = {}           # local name -> expanded right-hand side (plain local definitions are looked through)
-
-        def expand(txt):
-            for _ in range(4):
-                for nm, rhs in defs.items():
-                    txt = _re.sub(rf"\b{_re.escape(nm)}\b", lambda _m, _r=rhs: f"({_r})", txt)
-            return txt
-        for st in wn.body:
-            s = ast.unparse(st)
-            sx = expand(s) if not isinstance(st, ast.Assign) else s
-            if isinstance(st, ast.Assign) and "check_count" in s and f"{fv}.readline()" in expand(ast.unparse(st.value)) and isinstance(st.targets[0], ast.Name):
-                kinds.append("read"); var = st.targets[0].id
-            elif isinstance(st, ast.Assign) and len(st.targets) == 1 and isinstance(st.targets[0], ast.Name) and f"{fv}." not in ast.unparse(st.value):
-                defs[st.targets[0].id] = expand(ast.unparse(st.value))        # neutral local definition
-            elif isinstance(st, ast.Assign) and len(st.targets) == 1 and isinstance(st.targets[0], ast.Name) and ast.unparse(st.value) == f"{fv}.readline()":
-                defs[st.targets[0].id] = f"{fv}.readline()"
-            elif isinstance(st, ast.Expr) and sx.replace(" ", "").replace("(0)", "0") in (f"{fv}.seek0", f"{fv}.seek(0)") or (isinstance(st, ast.Expr) and s.replace(" ", "") == f"{fv}.seek(0)"):
-                kinds.append("seek")
-            elif isinstance(st, ast.Expr) and s.startswith(f"{fv}.write(") and "_increment_with_rollover" in sx and var and _re.search(rf"_increment_with_rollover\(\(?{var}\)?\)", sx) and "\\n" in sx:
-                kinds.append("write")
-            elif isinstance(st, ast.Return) and var and expand(ast.unparse(st.value)).strip("()") == var:
-                kinds.append("return")
-            elif isinstance(st, ast.Expr) and s.replace(" ", "") == f"{fv}.truncate()":
-                pass        # cut at the current position, i.e. right after the text just written
-            elif isinstance(st, ast.Expr) and s.startswith(f"{fv}.truncate(") and "write" in kinds:
-                # truncate(n) after the write: n must be the length of the text just written
-                wr = [x for x in wn.body if isinstance(x, ast.Expr) and ast.unparse(x).startswith(f"{fv}.write(")]
-                written = expand(ast.unparse(wr[-1].value.args[0])) if wr and wr[-1].value.args else None
-                arg = expand(ast.unparse(st.value.args[0])) if st.value.args else ""
-                if written is None or arg.replace(" ", "") not in (f"len({written})".replace(" ", ""), f"len(({written}))".replace(" ", "")):
-                    probs.append(f"`{s}` cuts the file to a length other than that of the text just written ({arg}); the stored count is damaged when the "
-                                 "number of digits changes")
-            else:
-                kinds.append("other:" + s[:30])
-        if any(k.startswith("other:") for k in kinds):
-            ck.unknown("P-MUST", "FileSeqCountProvider.get_and_increment", "read count, seek(0), write successor + newline, return old count - in this order inside the with-block",
-                       f"statement not recognised: {[k for k in kinds if k.startswith('other:')][:2]}")
-            kinds = None
-        elif kinds != ["read", "seek", "write", "return"]:
-            probs.append(f"order of the file operations in the with-block is {kinds}; reference read, seek(0), write(successor), return old")
-        outer_rets = [n for n in f.node.body if isinstance(n, ast.Return)]
-        if outer_rets and kinds == ["read", "seek", "write"] and len(outer_rets) == 1 and f.node.body[-1] is outer_rets[0] \
-                and var and ast.unparse(outer_rets[0].value) == var:
-            kinds = ["read", "seek", "write", "return"]      # the old count is returned right after the with-block: same order
-            probs[:] = [p_ for p_ in probs if not p_.startswith("order of the file operations")]
-        elif outer_rets:
-            probs.append("a return outside the with-block")
-    if not (len(withs) == 1 and kinds is None):
-        ck.verdict("P-MUST", "FileSeqCountProvider.get_and_increment", "read count, seek(0), write successor + newline, return old count - in this order inside the with-block", probs, "straight-line block")
-    # ---------------------------------------------------------------- readers agree with the writer about what is stored
-    # get_and_increment overwrites the count in place (seek(0) + write) without truncating, so after a shorter count has
-    # replaced a longer one stale characters follow the first line: the stored count is the FIRST LINE only
-    gi = ast.unparse(P.func(f"{SQ}.FileSeqCountProvider.get_and_increment").node)
-    truncates = ".truncate(" in gi or "'w'" in gi or '"w"' in gi
-    for meth in ("current", "get_and_increment"):
-        fnode = P.func(f"{SQ}.FileSeqCountProvider.{meth}").node
-        calls = [n for n in ast.walk(fnode) if isinstance(n, ast.Call) and isinstance(n.func, ast.Attribute) and n.func.attr == "check_count"]
-        for c in calls:
-            arg = ast.unparse(c.args[0]) if c.args else ""
-            if c.args and isinstance(c.args[0], ast.Name):
-                # a local that holds what was read: look through its definition
-                dfs = [n_ for n_ in ast.walk(fnode) if isinstance(n_, ast.Assign) and len(n_.targets) == 1 and isinstance(n_.targets[0], ast.Name) and n_.targets[0].id == c.args[0].id]
-                if len(dfs) == 1:
-                    arg = ast.unparse(dfs[0].value)
-            what = f"{meth} validates the stored count, i.e. the first line of the file"
-            first_line = (arg.endswith(".readline()") or arg.endswith(".readlines()[0]") or arg.endswith(".splitlines()[0]") or arg.startswith("next("))
-            whole = arg.endswith(".read()") or arg.endswith(".read_text()")
-            if first_line or (whole and truncates):
-                ck.proved("P-MUST", f"FileSeqCountProvider.{meth}", what, f"check_count({arg})")
-            elif whole:
-                ck.refuted("P-MUST", f"FileSeqCountProvider.{meth}", what, f"check_count({arg}) parses the whole file although the writer overwrites in place without truncating: "
-                           "after the rollover 127 -> 0 of a 7-bit counter the file holds '0\\n7\\n' and the valid stored count 0 is refused", witness={"file_content": "0\n7\n", "width": 7})
-            else:
-                ck.unknown("P-MUST", f"FileSeqCountProvider.{meth}", what, f"unrecognised way of reading the count: check_count({arg})")
-        if not calls:
-            ck.unknown("P-MUST", f"FileSeqCountProvider.{meth}", "the stored count is validated", "no check_count call")
-    f = P.func(f"{SQ}.FileSeqCountProvider.create_new")
-    s = ast.unparse(f.node)
-    ok = "'w'" in s and ".write('0\\n')" in s
-    ck.verdict("K-CONST", "FileSeqCountProvider.create_new", "a new file holds the count 0", [] if ok else [s[-80:]], "write('0\\n')")
-    f = P.func(f"{SQ}.FileSeqCountProvider.__init__")
-    s = ast.unparse(f.node)
-    ok = "if not self.file_name.exists():" in s and "self.create_new()" in s and s.count("create_new") == 1
-    ck.verdict("K-CONST", "FileSeqCountProvider.__init__", "an existing file is never reset by a new instance", [] if ok else ["create_new is not guarded by `not exists()`"], "guarded")
+    # ---------------------------------------------------------------- what the file provider does to its file (effect trace)
+    nev += file_effects(ck, P, w)
     # ---------------------------------------------------------------- wrappers
     it = new_interp(P); env = Env()
     pp = R.run_guarded(ck, "D-TABLE", "PusFileSeqCountProvider.__init__", "construct",
